@@ -261,6 +261,65 @@ func c06Capitalise(rng *rand.Rand, table []c06Entry) []c06Entry {
 	return out
 }
 
+// c06ChainLen draws the length of a CNAME chain: mostly around powers of two
+// and small limits, else anything from 1 to 40.
+func c06ChainLen(rng *rand.Rand) int {
+	if rng.Intn(100) < 60 {
+		special := []int{7, 8, 9, 10, 15, 16, 17, 31, 32, 33}
+
+		return special[rng.Intn(len(special))]
+	}
+
+	return 1 + rng.Intn(40)
+}
+
+// c06GenChain generates a table that is one loop-free chain of CNAME lines
+// n0 -> n1 -> ... -> nL (some hops through wildcard patterns) and an ending
+// at nL: values, an exception, nothing (the chain leaves the table) or a CNAME
+// back into the chain (a long chain that ends in a cycle).  It returns the
+// table and the chain's names, n0 first.
+func c06GenChain(rng *rand.Rand) (table []c06Entry, names []string, ending string) {
+	l := c06ChainLen(rng)
+	pats := make([]string, l+1)
+	for i := 0; i <= l; i++ {
+		if rng.Intn(100) < 20 {
+			names = append(names, fmt.Sprintf("x.h%02d.chain.test", i))
+			pats[i] = fmt.Sprintf("*.h%02d.chain.test", i)
+		} else {
+			names = append(names, fmt.Sprintf("h%02d.chain.test", i))
+			pats[i] = names[i]
+		}
+		if rng.Intn(100) < 10 {
+			pats[i] = c06MixCase(rng, pats[i])
+		}
+	}
+	for i := 0; i < l; i++ {
+		table = append(table, c06Entry{Domain: pats[i], Answer: names[i+1]})
+	}
+	switch w := rng.Intn(100); {
+	case w < 45:
+		ending = "value"
+		table = append(table, c06Entry{Domain: pats[l], Answer: c06V4[rng.Intn(len(c06V4))]})
+		if rng.Intn(2) == 0 {
+			table = append(table, c06Entry{Domain: pats[l], Answer: c06V6[rng.Intn(len(c06V6))]})
+		}
+	case w < 57:
+		ending = "exception"
+		table = append(table, c06Entry{Domain: pats[l], Answer: []string{"A", "AAAA"}[rng.Intn(2)]})
+	case w < 77:
+		ending = "leaves-table"
+	default:
+		ending = "cycle"
+		table = append(table, c06Entry{Domain: pats[l], Answer: names[rng.Intn(l+1)]})
+	}
+	if rng.Intn(100) < 25 {
+		// Address lines below every hop: CNAME lines still go first.
+		table = append(table, c06Entry{Domain: "*.chain.test", Answer: "10.9.9.9"})
+	}
+
+	return table, names, ending
+}
+
 // c06Scripted are tables every run contains: the examples of AGHTechDoc and
 // of the package's own tests plus the corner cases named in DESIGN.
 func c06Scripted() [][]c06Entry {
@@ -470,11 +529,22 @@ func TestVerifC06Table(t *testing.T) {
 	nTables := verifkit.Pick(10000, 200000)
 	samples := 0
 
+	// Every chainEvery-th generated table is one long CNAME chain, queried at
+	// every distance from its end.
+	const chainEvery = 25
+	chrng := rep.Rand("chains")
+
 	for ti := 0; ti < nTables+len(scripted); ti++ {
 		var table []c06Entry
+		var chainNames []string
 		if ti < len(scripted) {
 			table = scripted[ti]
 			rep.Class("tables:scripted")
+		} else if (ti-len(scripted))%chainEvery == chainEvery-1 {
+			var ending string
+			table, chainNames, ending = c06GenChain(chrng)
+			rep.Class("tables:chain:ending-" + ending)
+			rep.Class(fmt.Sprintf("tables:chain:length-%s", c06LenBucket(len(chainNames)-1)))
 		} else {
 			table = c06Capitalise(crng, c06GenTable(rng))
 			rep.Class("tables:generated")
@@ -489,7 +559,22 @@ func TestVerifC06Table(t *testing.T) {
 			orders[k] = p
 		}
 		qs := c06Queries(ti)
+		if chainNames != nil {
+			qs = qs[:0]
+			for i, n := range chainNames {
+				qs = append(qs, c06Query{n, dns.TypeA})
+				if i%3 == 0 {
+					qs = append(qs, c06Query{n, dns.TypeAAAA})
+				}
+				if i%5 == 0 {
+					qs = append(qs, c06Query{n, dns.TypeTXT})
+				}
+			}
+			qs = append(qs, c06Query{"chain.test", dns.TypeA}, c06Query{"h99.chain.test", dns.TypeA}, c06Query{"example.org", dns.TypeA})
+		}
 		obs := make([][3]c06Obs, len(qs))
+		var viaFile []c06Obs
+		var inFile []c06Entry
 		failed := make([]bool, len(qs))
 
 		w.begin(ti)
@@ -532,6 +617,32 @@ func TestVerifC06Table(t *testing.T) {
 						map[string]any{"table": ord, "query_name": name, "query_type": dns.TypeToString[q.qt]})
 				default:
 					obs[qi][k] = c06Observe(res)
+				}
+			}
+			if k == 0 {
+				// The product's own restart: WriteDiskConfig, YAML, New.
+				nd, tbl, rerr := c06RestartThroughConfigFile(d, dataDir)
+				if rerr != nil {
+					rep.Violate("restart-through-config-file-fails", "the configuration written by WriteDiskConfig cannot be loaded again: "+rerr.Error(),
+						map[string]any{"table": ord})
+				} else {
+					rep.Event("restarts_through_config_file")
+					inFile = tbl
+					viaFile = make([]c06Obs, len(qs))
+					for qi, q := range qs {
+						w.at(tbl, 3, q.name, q.qt)
+						res, cerr, pan := c06Call(nd, setts, q.name, q.qt)
+						rep.Event("checkhost_calls")
+						if cerr != nil || pan != nil {
+							failed[qi] = true
+							rep.Violate("panic-or-error:checkhost-after-restart", fmt.Sprintf("CheckHost failed after the restart: %v %v", pan, cerr),
+								map[string]any{"table": ord, "table_in_config_file": tbl, "query_name": q.name})
+
+							continue
+						}
+						viaFile[qi] = c06Observe(res)
+					}
+					nd.Close()
 				}
 			}
 			d.Close()
@@ -611,6 +722,21 @@ func TestVerifC06Table(t *testing.T) {
 							q.name, dns.TypeToString[q.qt]), wit(1))
 				}
 			}
+			if viaFile != nil {
+				rep.Event("restart_comparisons")
+				o, r := obs[qi][0], viaFile[qi]
+				if o.Pass != r.Pass || o.Canon != r.Canon || strings.Join(o.IPs, ",") != strings.Join(r.IPs, ",") {
+					m := wit(0)
+					m["table_in_config_file"] = inFile
+					m["answer_after_restart_through_config_file"] = r
+					rep.Violate("restart-through-config-file-changes-resolution:"+c06FileDiffKinds(orders[0], inFile),
+						fmt.Sprintf("%s %s: the running filter returned %s, the filter started from the configuration it wrote returns %s",
+							q.name, dns.TypeToString[q.qt], verifkit.JSON(o), verifkit.JSON(r)), m)
+				}
+			}
+			if exp.Depth >= 9 {
+				c06CountLong(rep, exp)
+			}
 			if exp.Nontrivial && samples < 6 && ti >= len(scripted) && (ti-len(scripted))/97 == samples && exp.Depth+len(exp.Tags) > 0 {
 				samples++
 				rep.Sample(wit(0))
@@ -651,7 +777,41 @@ func TestVerifC06Table(t *testing.T) {
 			rep.Inconcl(fmt.Sprintf("class %q seen %d times, fewer than %d", c, rep.Classes[c], n))
 		}
 	}
+	for _, k := range []string{"chain_len_9plus_decided_by_model", "chain_len_17plus_decided_by_model", "chain_len_33plus_decided_by_model"} {
+		if rep.Events[k] < 50 {
+			rep.Inconcl(fmt.Sprintf("event %q seen %d times, fewer than 50", k, rep.Events[k]))
+		}
+	}
+	if rep.Classes["tables:chain:ending-cycle"] < 10 || rep.Events["restart_comparisons"] < 10000 {
+		rep.Inconcl("too few long chains ending in a cycle or too few restart comparisons")
+	}
 	if rep.Events["chain_len_2"]+rep.Events["chain_len_3"]+rep.Events["chain_len_4plus"] < 50 {
 		rep.Inconcl("fewer than 50 cases with a CNAME chain of two or more steps")
+	}
+}
+
+func c06LenBucket(l int) string {
+	switch {
+	case l <= 8:
+		return "1-8"
+	case l <= 16:
+		return "9-16"
+	case l <= 32:
+		return "17-32"
+	default:
+		return "33-40"
+	}
+}
+
+// c06CountLong counts cases with long chains, separately those the model
+// decides (loop-free, outside the zones).
+func c06CountLong(rep *verifkit.Report, exp *c06Expect) {
+	for _, b := range []int{9, 17, 33} {
+		if exp.Depth >= b {
+			rep.Event(fmt.Sprintf("chain_len_%dplus", b))
+			if exp.Zone == "" {
+				rep.Event(fmt.Sprintf("chain_len_%dplus_decided_by_model", b))
+			}
+		}
 	}
 }
